@@ -404,20 +404,30 @@ func (s Stream) coqAgg() string {
 }
 
 func (s Stream) coqText() string {
+	// the websocket message type travels with the message: for the model it is the first byte of the content
+	// (1 = text, 2 = binary), so "unmodified" covers it
+	typed := func(text bool, d []byte) []byte {
+		t := byte(2)
+		if text {
+			t = 1
+		}
+		return append([]byte{t}, d...)
+	}
 	o := s.Obs
 	evs, tap, reads := []string{}, []string{}, []string{}
 	gi := 0
 	for _, m := range s.Msgs {
 		if gi < len(o.Frames) && string(o.Frames[gi]) == string(m.Data) {
-			evs = append(evs, lib.App("WsMsg", hx(m.Data)), lib.App("Consume", lib.Nat(0)))
+			evs = append(evs, lib.App("WsMsg", hx(typed(m.Text, m.Data))), lib.App("Consume", lib.Nat(0)))
 			gi++
 		} else {
-			evs = append(evs, lib.App("Busy", lib.Nat(0)), lib.App("WsMsg", hx(m.Data)))
+			evs = append(evs, lib.App("Busy", lib.Nat(0)), lib.App("WsMsg", hx(typed(m.Text, m.Data))))
 		}
-		tap = append(tap, "(OB "+hx(m.Data)+")")
+		tap = append(tap, "(OB "+hx(typed(m.Text, m.Data))+")")
 	}
-	for _, f := range o.Frames {
-		reads = append(reads, "(OB "+hx(f)+")")
+	for j, f := range o.Frames {
+		text := j < len(o.RecvText) && o.RecvText[j]
+		reads = append(reads, "(OB "+hx(typed(text, f))+")")
 	}
 	return lib.App("CS", lib.N(0), lib.List([]string{lib.Nat(2)}), lib.List(evs), lib.List(tap), lib.List([]string{lib.List(reads)}))
 }
